@@ -5,6 +5,7 @@ package c0102
 import (
 	"bytes"
 	"fmt"
+	"github.com/philpearl/avro"
 	"io"
 	"reflect"
 	"strings"
@@ -27,6 +28,64 @@ type probeCase struct {
 	// whole: the value alphabet consists of whole struct values (multi-field records), not of values of one probe field F
 	whole bool
 	newS  func(w io.Writer, comp string, bs int) (statics.Enc, error) // nil = dynamic
+	// custom, when set, is the value alphabet of a whole-record probe (instead of wholeValues)
+	custom []reflect.Value
+}
+
+// ManyAlloc: one record that takes dozens of pointed-to values of one type from its resource bank (the bank's
+// per-type arenas start small and double)
+type ManyAlloc struct {
+	L []*int64           `json:"l"`
+	M map[string]*string `json:"m"`
+	P []*univ.Rec        `json:"p"`
+}
+
+// ZeroWidth: arrays whose items take no bytes on the wire (a record type without serialisable fields): the item
+// count says nothing about how many bytes follow
+type ZeroWidth struct {
+	A int64        `json:"a"`
+	E []struct{}   `json:"e"`
+	H []hiddenOnly `json:"h"`
+	Z int64        `json:"z"`
+}
+
+type hiddenOnly struct {
+	Skip int64 `json:"-"`
+	x    int64
+}
+
+func customProbes() []probeCase {
+	var out []probeCase
+	mkMany := func(nl, nm, np int) reflect.Value {
+		v := ManyAlloc{M: map[string]*string{}}
+		for i := 0; i < nl; i++ {
+			x := int64(1000 + i)
+			v.L = append(v.L, &x)
+		}
+		for i := 0; i < nm; i++ {
+			x := fmt.Sprintf("v%d", i)
+			v.M[fmt.Sprintf("k%03d", i)] = &x
+		}
+		for i := 0; i < np; i++ {
+			r := univ.Values(reflect.TypeOf(univ.Rec{}), true)[1+i%2].Interface().(univ.Rec)
+			v.P = append(v.P, &r)
+		}
+		return reflect.ValueOf(v)
+	}
+	mt := reflect.TypeOf(ManyAlloc{})
+	out = append(out, probeCase{probe: univ.Probe{Name: "many allocations of one type in one record", Expr: &univ.Expr{Op: "struct", Elem: &univ.Expr{Op: "many-allocations"}}, Tag: `json:"f"`, Type: mt}, depth: 2, whole: true, newS: statics.NewFor[ManyAlloc](),
+		custom: []reflect.Value{mkMany(40, 3, 2), mkMany(3, 40, 0), mkMany(70, 70, 35), mkMany(16, 17, 33)}})
+	mkZero := func(ne, nh int) reflect.Value {
+		return reflect.ValueOf(ZeroWidth{A: 7, E: make([]struct{}, ne), H: make([]hiddenOnly, nh), Z: -9})
+	}
+	zt := reflect.TypeOf(ZeroWidth{})
+	out = append(out, probeCase{probe: univ.Probe{Name: "arrays of zero-width items", Expr: &univ.Expr{Op: "struct", Elem: &univ.Expr{Op: "zero-width-items"}}, Tag: `json:"f"`, Type: zt}, depth: 2, whole: true, newS: statics.NewFor[ZeroWidth](),
+		custom: []reflect.Value{mkZero(3, 0), mkZero(0, 9), mkZero(100, 2), mkZero(9, 100)}})
+	// a record type with nothing to serialise: every row takes zero bytes, and must still be counted and written
+	et := reflect.TypeOf(struct{}{})
+	out = append(out, probeCase{probe: univ.Probe{Name: "record without fields (zero-byte rows)", Expr: &univ.Expr{Op: "struct", Elem: &univ.Expr{Op: "zero-byte-rows"}}, Tag: `json:"f"`, Type: et}, depth: 2, whole: true, newS: statics.NewFor[struct{}](),
+		custom: []reflect.Value{reflect.ValueOf(struct{}{}), reflect.ValueOf(struct{}{})}})
+	return out
 }
 
 var memoP = map[string][]probeCase{}
@@ -59,6 +118,7 @@ func probes(tier string) []probeCase {
 		}
 	}
 	ps = append(ps, multiFieldProbes()...)
+	ps = append(ps, customProbes()...)
 	if tier == "thorough" {
 		for _, e := range univ.Exprs(3) {
 			ps = append(ps, probeCase{probe: univ.DynProbe(e, []string{``, `json:"f,omitempty"`}[len(e.Chain())%2]), depth: 3})
@@ -70,7 +130,7 @@ func probes(tier string) []probeCase {
 
 type config struct {
 	comp    string
-	bs      int // -1 = exact size of two records (resolved per sequence)
+	bs      int  // -1 = exact size of two records (resolved per sequence)
 	flushes uint // bit i: flush after record i
 	mode    int
 	// refuse = j+1: the writer refuses (0 bytes, error) the first write of the explicit flush after record j,
@@ -526,6 +586,9 @@ func clipS(s string) string {
 
 func runWhole(c *fw.Ctx, w which, idx int, pc probeCase) {
 	vals := wholeValues(pc.probe.Type)
+	if pc.custom != nil {
+		vals = pc.custom
+	}
 	n := 0
 	mode := func() int { n++; return (idx + n) % filedrv.NumReadModes }
 	for _, a := range vals {
@@ -652,12 +715,92 @@ func runProbe(c *fw.Ctx, w which, idx int, pc probeCase) {
 	}
 }
 
+// runShards: ONE FileWriter producing several files (the API takes the destination on every call): headers to k
+// destinations — by WriteHeader or by AppendHeader + a plain write — in every order, then single-row blocks dealt
+// round-robin. Every file must be a complete container on its own: its blocks end with ITS header's sync marker,
+// counts and sizes exact, rows as written.
+func runShards(c *fw.Ctx, w which) {
+	schema := ref.Record("S", ref.F("a", ref.Prim("long")))
+	n := 0
+	for _, comp := range []string{"null", "deflate", "snappy"} {
+		for k := 1; k <= 3; k++ {
+			for hdrMask := 0; hdrMask < 1<<uint(k); hdrMask++ { // bit i: shard i gets its header through AppendHeader
+				for rows := 0; rows <= 4; rows++ {
+					n++
+					c.Eval(1)
+					desc := fmt.Sprintf("one FileWriter (%s) writing %d files, headers via AppendHeader for shards %03b, %d single-row blocks dealt round-robin", comp, k, hdrMask, rows)
+					locus := "FileWriter-shards|" + comp
+					c.Begin(locus, desc)
+					c.Nontrivial(desc)
+					bufs := make([]bytes.Buffer, k)
+					var werr error
+					if c.Guard(locus, desc, desc, func() {
+						fwr, err := avro.NewFileWriter([]byte(schema.Print(nil)), avro.Compression(comp))
+						if err != nil {
+							werr = err
+							return
+						}
+						for i := 0; i < k; i++ {
+							if hdrMask&(1<<uint(i)) != 0 {
+								bufs[i].Write(fwr.AppendHeader(nil))
+							} else if err := fwr.WriteHeader(&bufs[i]); err != nil {
+								werr = err
+								return
+							}
+						}
+						for r := 0; r < rows; r++ {
+							if err := fwr.WriteBlock(&bufs[r%k], 1, ref.AppendLong(nil, int64(100+r))); err != nil {
+								werr = err
+								return
+							}
+						}
+					}) {
+						continue
+					}
+					if werr != nil {
+						c.Violation("encoder-error|"+locus, fmt.Sprintf("%v — %s", werr, desc), desc)
+						continue
+					}
+					for i := 0; i < k; i++ {
+						p, err := ref.ParseFile(bufs[i].Bytes())
+						if err != nil {
+							c.Violation("not-a-container|"+locus, fmt.Sprintf("file %d does not parse as a container file: %v — %s", i, err, desc), desc)
+							break
+						}
+						want := 0
+						for r := i; r < rows; r += k {
+							want++
+						}
+						if len(p.Blocks) != want {
+							c.Violation("wrong-block-count|"+locus, fmt.Sprintf("file %d holds %d blocks, %d were written to it — %s", i, len(p.Blocks), want, desc), desc)
+							break
+						}
+						bad := false
+						for bi, b := range p.Blocks {
+							v, used, cl := ref.ReadLong(b.Payload)
+							if b.Count != 1 || cl != ref.VOK || used != len(b.Payload) || v != int64(100+i+bi*k) {
+								c.Violation("payload-not-avro|"+locus, fmt.Sprintf("file %d block %d: count %d payload %x, written row %d — %s", i, bi, b.Count, b.Payload, 100+i+bi*k, desc), desc)
+								bad = true
+								break
+							}
+						}
+						if bad {
+							break
+						}
+					}
+				}
+			}
+		}
+	}
+	c.Sample(map[string]interface{}{"kind": "one FileWriter, several files", "histories": n})
+}
+
 func rule(tier string, what string) string {
 	d := "depth<=1 statically (320 generated named types through the real generic NewEncoderFor[T]/Encoder[T]) and dynamically; depth 2 dynamically (reflect.StructOf; 256 expressions × 2 tags)"
 	if tier == "thorough" {
 		d = "depth<=1 statically (320 generated types through the real generic Encoder[T]) and dynamically; depth 2 (256 expressions × 4 tags) and depth 3 (1024 expressions) dynamically"
 	}
-	return "probe struct types struct{c0; F τ `tag`; c1; c2} with canary fields, τ over 16 leaves {bool,int,int16,int32,int64,float32,float64,string,[]byte,time.Time,null.Int/Bool/Float/String/Time,Rec} and wrappers {*τ,[]τ,map[string]τ,struct{X τ}}: " + d + "; per type: every value sequence of length<=2 over the full value alphabet, every length-3 sequence over 3 representatives × {null,deflate,snappy} × block size {0,1,size of two records,65536} × every subset of flush positions, reader rotating over {full reads, 1-byte reads, data+EOF, *bytes.Buffer, 16-byte *bufio.Reader, every other Read returning (0,nil)}; every length-3 sequence again with a flush after each record where the writer refuses the first write of one of the flushes once (nothing consumed) and the flush is retried; 66 multi-field record types (every arrangement of six *int64 / *string fields, and two mixed ones with slices, maps and nested pointers) with 4 value patterns in sequences of <=3 (allocation order inside one record); for the string and []byte leaves also records of 66–70 kB a 400-record block of >64 KiB (larger than the reader's read-ahead chunk) and a block of 9000 identical records (best-case compression ratio) under every codec; the file is read into T, into a fresh *T, and into a caller-owned *T already used by an earlier read that its callback abandoned at the last record; every record is compared twice: as deep-copied inside the callback, and as a plain struct copy kept by the caller until ReadFile has returned (banks left open); " + what + "; a case is one (type, sequence, configuration); non-trivial = encoding succeeded and the output reached the oracle"
+	return "probe struct types struct{c0; F τ `tag`; c1; c2} with canary fields, τ over 16 leaves {bool,int,int16,int32,int64,float32,float64,string,[]byte,time.Time,null.Int/Bool/Float/String/Time,Rec} and wrappers {*τ,[]τ,map[string]τ,struct{X τ}}: " + d + "; per type: every value sequence of length<=2 over the full value alphabet, every length-3 sequence over 3 representatives × {null,deflate,snappy} × block size {0,1,size of two records,65536} × every subset of flush positions, reader rotating over {full reads, 1-byte reads, data+EOF, *bytes.Buffer, 16-byte *bufio.Reader, every other Read returning (0,nil)}; every length-3 sequence again with a flush after each record where the writer refuses the first write of one of the flushes once (nothing consumed) and the flush is retried; 66 multi-field record types (every arrangement of six *int64 / *string fields, and two mixed ones with slices, maps and nested pointers) with 4 value patterns in sequences of <=3 (allocation order inside one record); a record type that takes 40–70 pointed-to values of one type from its bank, and one with arrays of up to 100 zero-width items (records without serialisable fields); for the string and []byte leaves also records of 66–70 kB a 400-record block of >64 KiB (larger than the reader's read-ahead chunk) and a block of 9000 identical records (best-case compression ratio) under every codec; the file is read into T, into a fresh *T, and into a caller-owned *T already used by an earlier read that its callback abandoned at the last record; every record is compared twice: as deep-copied inside the callback, and as a plain struct copy kept by the caller until ReadFile has returned (banks left open); " + what + "; plus FileWriter used directly for 1–3 files at once (headers through WriteHeader or AppendHeader in every combination, 0–4 single-row blocks dealt round-robin), each file parsed on its own; a case is one (type, sequence, configuration); non-trivial = encoding succeeded and the output reached the oracle"
 }
 
 func register(id string, w which, level, what string, assumptions []string) {
@@ -667,8 +810,12 @@ func register(id string, w which, level, what string, assumptions []string) {
 		Rule:        func(tier string) string { return rule(tier, what) },
 		Assumptions: assumptions,
 		Init:        func(c *fw.Ctx) { reg.Init() },
-		NumCases:    func(tier string) int { return len(probes(tier)) },
+		NumCases:    func(tier string) int { return len(probes(tier)) + 1 },
 		RunCase: func(c *fw.Ctx, idx int) {
+			if idx == len(probes(c.Tier)) {
+				runShards(c, w)
+				return
+			}
 			runProbe(c, w, idx, probes(c.Tier)[idx])
 		},
 		Budget: func(tier string) time.Duration { return 40 * time.Minute },
